@@ -1,0 +1,10 @@
+//go:build !verif
+
+// Package verifhook marks a few points in the code where the verification harness (build tag
+// "verif") can observe or delay execution. Without the tag the calls are empty and inlined.
+package verifhook
+
+import "context"
+
+// At marks a named point in the code.
+func At(ctx context.Context, site string) {}
